@@ -91,10 +91,21 @@ def fold_discriminants(ct) -> list[str]:
                 if isinstance(st, ast.If):
                     names = {n.id for n in ast.walk(st) if isinstance(n, ast.Name) and isinstance(n.ctx, ast.Store)}
                     for nm in sorted(names):
-                        lead = [body[i - 1]] if i > 0 and isinstance(body[i - 1], ast.Assign) and len(body[i - 1].targets) == 1 \
-                            and isinstance(body[i - 1].targets[0], ast.Name) and body[i - 1].targets[0].id == nm \
-                            and isinstance(body[i - 1].value, ast.Constant) and body[i - 1].value.value is None else []
+                        # an earlier `name = None` initialisation (the result variable of an inlined getter) that nothing reads in between
+                        lead = []
+                        for j in range(i - 1, -1, -1):
+                            pj = body[j]
+                            if isinstance(pj, ast.Assign) and len(pj.targets) == 1 and isinstance(pj.targets[0], ast.Name) and pj.targets[0].id == nm \
+                                    and isinstance(pj.value, ast.Constant) and pj.value.value is None:
+                                lead = [pj]
+                                break
+                            if any(isinstance(n, ast.Name) and n.id == nm for n in ast.walk(pj)):
+                                break
                         cases = _chain(lead + [st], nm)
+                        # locals the conditions read must be bound exactly once
+                        if cases is not None and any(isinstance(n, ast.Name) and isinstance(n.ctx, ast.Load) and stores.get(n.id, 0) > 1
+                                                     for cs, _k in cases for c in cs for n in ast.walk(c)):
+                            cases = None
                         n_assign = sum(1 for n in ast.walk(st) if isinstance(n, ast.Name) and n.id == nm and isinstance(n.ctx, ast.Store)) + len(lead)
                         if cases is not None and len(cases) > 1 and stores.get(nm, 0) == n_assign:
                             cand = (nm, cases)
